@@ -200,7 +200,8 @@ class C13(Property):
                 real = [x.encode() for x in exp[1]] if exp[0] == "ok" else []
                 args = [b"a", b"zz"]
                 for x in rng.sample(real, min(len(real), 3)):
-                    args += [x, x[:-1], x + b"x", b" " + x, x + b" ", x.upper() if x != x.upper() else x.lower()]
+                    args += [x, x[:-1], x + b"x", b" " + x, x + b" ", x.upper() if x != x.upper() else x.lower(),
+                             x + b".x", x + b" y", b"1" + x, x + b"-1", b"(" + x + b")"]
             argstr = "/".join(hx(a) for a in rng.sample(args, min(len(args), 4)) if a)
             e = "ok" if exp[0] == "ok" else "err"
             if exp[0] == "ok":
